@@ -555,6 +555,9 @@ func (i *interpreter) unop(fr *frame, instr *ssa.UnOp, x value) value {
 			if p == nil {
 				i.throw("invalid memory address or nil pointer dereference")
 			}
+			if i.frozen != nil {
+				i.noteFrozenRead(p)
+			}
 			return load(deref(instr.X.Type()), p)
 		case symptr:
 			return i.selectValue(p.elems, p.idx)
